@@ -68,6 +68,10 @@ pub fn cases_c14(tier: &str, seed: u64) -> Vec<Case> {
                         Inject::ConstsNonEmpty { comp: 0, party, from: n + 2 },
                         Inject::ConstsNonEmpty { comp: 0, party, from: usize::MAX },
                     ];
+                    if !late && (k % 4 == 1 || k == steps) {
+                        injs.push(Inject::MpcMsgBurst { comp: 0, party, from: party, count: 12 });
+                        injs.push(Inject::MpcMsgBurst { comp: 0, party, from: n + 1, count: 12 });
+                    }
                     if k == 0 {
                         injs.push(Inject::MpcMsg { comp: 0, party, from: (party + 1) % n });
                         injs.push(Inject::MpcMsg { comp: 0, party, from: party });
@@ -78,7 +82,7 @@ pub fn cases_c14(tier: &str, seed: u64) -> Vec<Case> {
                     if !thorough && !late {
                         // quick: rotate through the kinds instead of taking all of them at every point
                         let keep = (k + party + seed as usize) % 3;
-                        injs = injs.into_iter().enumerate().filter(|(i, _)| i % 3 == keep || (k == 0 && *i >= 10)).map(|(_, x)| x).collect();
+                        injs = injs.into_iter().enumerate().filter(|(i, x)| i % 3 == keep || (k == 0 && *i >= 10) || matches!(x, Inject::MpcMsgBurst { .. })).map(|(_, x)| x).collect();
                     }
                     for (ii, inj) in injs.into_iter().enumerate() {
                         let mut sc = base.clone();
@@ -106,6 +110,7 @@ fn inj_name(i: &Inject) -> String {
         Inject::Consts { from, .. } => format!("consts(from={})", if *from == usize::MAX { "usize::MAX".to_string() } else { from.to_string() }),
         Inject::ConstsNonEmpty { from, .. } => format!("consts-nonempty(from={})", if *from == usize::MAX { "usize::MAX".to_string() } else { from.to_string() }),
         Inject::Validate { .. } => "validate".into(),
+        Inject::MpcMsgBurst { count, from, party, .. } => if from == party { format!("{count} mpc_msgs naming the receiver itself as sender") } else { format!("{count} mpc_msgs from unknown sender {from}") },
         Inject::MpcMsg { from, .. } => format!("mpc_msg(from={})", if *from == usize::MAX { "usize::MAX".to_string() } else { from.to_string() }),
         Inject::Cancel { .. } => "cancel".into(),
         Inject::AltSchedule { .. } => "alt-schedule".into(),
@@ -130,6 +135,15 @@ fn judge_c14(c: &Case, rec: &RunRecord) -> Vec<(String, Value)> {
         let validate_rpc = rec.rpcs.iter().find(|r| r.kind == RpcKind::Validate && r.to == p && r.fate != "unused");
         let validate_done_before = validate_rpc.and_then(|r| r.t_done).map(|t| t < inj.t_call).unwrap_or(false);
         let validate_released_before = validate_rpc.and_then(|r| r.t_release).map(|t| t < inj.t_call).unwrap_or(false);
+        if inj.what == "mpc_msg-self-burst" {
+            // no queue of the engine is fed by the party itself: whatever the answer, such messages
+            // must be answered and must not influence the computation
+            if inj.result.is_none() && rec.quiescent {
+                out.push(("a stray MPC message naming the receiver itself as sender was never answered (the state machine is blocked)".to_string(), json!({"party": p, "step": inj.step})));
+                break;
+            }
+            continue;
+        }
         let must_err = if inj.what.starts_with("mpc_msg") {
             let from: usize = inj.what.trim_start_matches("mpc_msg(from=").trim_end_matches(')').parse().unwrap_or(usize::MAX);
             from >= n || !scheduled_before
